@@ -20,17 +20,17 @@ import (
 
 // e3 is the living-guard analysis (DESIGN.md 3, E3).
 type e3 struct {
-	p        *load.Prog
-	scope    map[*ssa.Function]bool // functions reachable from Publisher.Publish / Files
-	isLiving *ssa.Function
-	visType  types.Type
-	visConst map[string]string // constant value (exact string) -> "show" | "hide" | "placeholder"
-	callers  map[*ssa.Function][]ssa.CallInstruction
-	stores   map[string][]*ssa.Store // field key -> stores
-	preFalse map[string]bool        // falsified preconditions ("P:<fn>#i" / "F:<field>")
-	preUsed  map[string]bool
+	p         *load.Prog
+	scope     map[*ssa.Function]bool // functions reachable from Publisher.Publish / Files
+	isLiving  *ssa.Function
+	visType   types.Type
+	visConst  map[string]string // constant value (exact string) -> "show" | "hide" | "placeholder"
+	callers   map[*ssa.Function][]ssa.CallInstruction
+	stores    map[string][]*ssa.Store // field key -> stores
+	preFalse  map[string]bool         // falsified preconditions ("P:<fn>#i" / "F:<field>")
+	preUsed   map[string]bool
 	guardMemo map[string]bool
-	capped   []string
+	capped    []string
 	// mode "name": names/identifiers must be protected in hide and placeholder mode;
 	// mode "data": other personal text (dates, places, notes) must be protected in hide mode only
 	mode    string
